@@ -459,6 +459,7 @@ HIST_OPS2 = [None, ["detrend", "linear"], ["window", 0.1], ["trim", [0.02, 0.1]]
              ["butterworth_filter", [5.0, None]]]
 HIST_THIRD = ["back", 0, 90.05, -45]        # "back" = the orientation before the previous re-orientation
 HIST_PAIRS_QUICK = [(30, 200), (0, 90), (-45, 725), (359, 0)]
+HIST_PAIR_OFFSETS_THOROUGH = [3, 5]       # every angle is first and second target of two depth-3 histories
 _ASSIGNED = dict(ns="noise5", ew="two_sines", vt="noise4")
 
 
@@ -504,6 +505,13 @@ def _snapshot(rec):
 def _check_reoriented(ctx, root, case, opname, snap, rec, current, target):
     """``rec`` was re-oriented from ``current`` to ``target`` when it held the samples ``snap``."""
     s_ns, s_ew, s_vt = snap
+    if not (s_ns.shape == s_ew.shape == s_vt.shape) or s_ns.size == 0:
+        ctx.violation(f"C04:history:after-{opname}:components-of-different-length", root, detail=case,
+                      expected="three components of one length",
+                      observed=[list(s_ns.shape), list(s_ew.shape), list(s_vt.shape)],
+                      explanation="before this re-orientation the components of the recording no longer have the "
+                                  "same number of samples (an earlier re-orientation or operation lost samples)")
+        return False
     big = float(max(np.abs(s_ns).max(), np.abs(s_ew).max()))
     atol = ATOL_REL * big
     r_ns, r_ew = RR.reorient(s_ns, s_ew, current, target)
@@ -540,7 +548,9 @@ def _history_cases(tier):
         for b in ANGLES:
             for op1 in HIST_OPS:
                 yield a, op1, b, None, None
-    pairs = HIST_PAIRS_QUICK if tier == "quick" else [(a, b) for a in ANGLES for b in ANGLES]
+    n = len(ANGLES)
+    pairs = HIST_PAIRS_QUICK if tier == "quick" else [(ANGLES[i], ANGLES[(i + k) % n]) for i in range(n)
+                                                      for k in HIST_PAIR_OFFSETS_THOROUGH]
     for a, b in pairs:
         for op1 in HIST_OPS:
             for op2 in HIST_OPS2:
@@ -589,8 +599,7 @@ def _part_history(root, ctx, tier):
             ctx.sample(dict(root=root, case=case, ns_before_second_orientation=snap[0][:3].tolist(),
                             ew_before_second_orientation=snap[1][:3].tolist(),
                             ns_after=rec.ns.amplitude[:3].tolist()))
-        if not _check_reoriented(ctx, root, case, op1[0], snap, rec, a, b):
-            continue
+        _check_reoriented(ctx, root, case, op1[0], snap, rec, a, b)
         if c is None:
             continue
         opname = op1[0]
@@ -1128,22 +1137,43 @@ def describe(tier):
     dev = "every configuration within 2 deviations of the default" if quick else "the full product"
     return dict(
         rule="angle alphabet {0, 30, 90, 200, 359, -45, 400, 725} for deployed orientation, target, second target "
-             "and true azimuth.  orient: full product deployed x target x second target on "
-             f"{2 if quick else 4} signal triples x L {{8, 33}} x {2 if quick else 3} amplitude scales; polarised: "
-             "true azimuth x deployed x target (north first) on "
+             "and true azimuth; orient adds {0.08, 359.95, 360, 30.05} (re-orientations by 0.03-0.08 degree), "
+             "polarised adds deployed {0.08, 359.95, 30.05} and target 360.  orient: full product deployed x target "
+             "x second target (12^3) on "
+             f"{2 if quick else 4} signal triples x L {{8, 33}} x {2 if quick else 3} amplitude scales; steps: 8 "
+             "deployed orientations (targets counted from the wrapped and from the caller's value) x step {0.05, "
+             "-0.09, 1e-3, 1e-6} degree x {1, 2, 20, 200} steps on the same signals, n calls vs one call vs the "
+             "reference; history: orient(a); op1; orient(b) for the full product a x b x 13 operations "
+             "(butterworth_filter high/low/band-pass, detrend linear/constant, window 0.1/1.0, trim, assignment of "
+             "ns / ew / all amplitudes, in-place scaling, replacement of the ns and ew TimeSeries), and the depth-3 "
+             "histories orient(a); op1; orient(b); op2; orient(c) for "
+             f"{'4 (a, b) pairs' if quick else '16 (a, b) pairs (every angle twice first, twice second)'} x 13 op1 "
+             "x 6 op2 (none, detrend, window, trim, assignment, filter) x c in {back to a, 0, 90.05, -45} on "
+             f"{2 if quick else 4} signal triples x L {{33, 64}} x {2 if quick else 3} scales x 2 deployed "
+             "orientations, each re-orientation compared with the reference rotation of the samples snapshotted "
+             "just before it; polarised: true azimuth x deployed x target (north first) on "
              f"{2 if quick else 4} motions x L x scales; single: {dev} of {{2 FFT requests, 3 operators, 3 Tukey "
              "widths, 2 centre sets} x 7 azimuths x "
              f"{4 if quick else 8} deployed orientations x {4 if quick else 6} windows; azimuthal: {dev} of {{4 FFT "
-             "requests, 3 operators, 3 tapers, 2 centre sets} x 3 azimuth sets; rotdpp: the same configurations x "
-             "3 azimuth sets x percentiles {0, 25, 50, 100} x {1, 2} windows; invariant: "
+             "requests, 3 operators, 3 tapers, 2 centre sets} x 7 azimuth sequences (3 ascending, shuffled, "
+             "unsorted, descending, one with a repeated azimuth), entry i paired with the caller's i-th azimuth; "
+             "rotdpp: the same configurations x 5 azimuth sequences (3 ascending, 2 not) x percentiles "
+             "{0, 25, 50, 100} x {1, 2} windows; invariant: "
              f"{dev} of {{configuration, deployed, target}} x 7 invariant method names (+ geometric mean as control"
              + ("" if quick else "; the four alias names within 2 deviations only") + "), re-oriented by hvsrpy (all "
              "records alike, and each record differently) and deployed by the reference geometry; "
              f"preprocess: {dev} of {{target, hvsr/psd, window length, detrend, filter corners, 1-2 recordings}} x 8 "
-             "deployed orientations x 2 signal triples.  A case is non-trivial when the rotation involved is not a multiple of 90 degrees "
-             "(orient/polarised/single/invariant/preprocess) resp. per distinct (window, azimuth set, configuration) "
-             "(azimuthal/rotdpp)",
-        bounds=dict(angles=ANGLES, azimuths=AZIMUTHS, azimuth_sets=AZ_SETS, percentiles=PERCENTILES,
+             "deployed orientations x 2 signal triples.  A case is non-trivial when the rotation involved is not a "
+             "multiple of 90 degrees (orient/history/polarised/single/invariant/preprocess), every steps case, resp. "
+             "per distinct (window, azimuth set, configuration) (azimuthal/rotdpp)",
+        bounds=dict(angles=ANGLES, orient_angles=ORIENT_ANGLES, polarised_deployed=POL_DEPLOYED,
+                    polarised_targets=POL_TARGETS, step_sizes_in_degrees=STEP_SIZES, step_counts=STEP_COUNTS,
+                    history_operations=HIST_OPS, history_second_operations=HIST_OPS2,
+                    history_third_targets=HIST_THIRD, history_lengths=HIST_LENGTHS,
+                    history_depth3_pairs=HIST_PAIRS_QUICK if quick else f"offsets {HIST_PAIR_OFFSETS_THOROUGH} in "
+                                                                        "the angle alphabet",
+                    azimuths=AZIMUTHS, azimuth_sets={k: AZ_SETS[k] for k in AZIMUTHAL_SETS},
+                    rotdpp_azimuth_sets=ROTDPP_SETS, percentiles=PERCENTILES,
                     deviations=2 if quick else "full product", windows=4 if quick else 6,
                     window_lengths=sorted({w[3] for w in WINDOWS}), orient_lengths=ROT_LENGTHS),
         exhaustive=True,
@@ -1153,6 +1183,12 @@ def describe(tier):
             "azimuthal vs single-azimuth: the single-azimuth runs request the FFT length that the azimuthal run "
             "wrote back into its settings (with {'n': None} the nested call re-resolves the length to 32768, "
             "finding #17 of C09); bitwise equality is required at that common length",
+            "an azimuth sequence is taken as given: entry i of the azimuthal result must be labelled with and "
+            "computed for the caller's i-th azimuth, also when the sequence is not ascending; a sequence with a "
+            "repeated azimuth may be refused (raise), but if it is accepted every entry must be present",
+            "re-orienting rotates the samples the recording holds when orient_sensor_to is called: amplitudes "
+            "changed through the public operations or by assignment between two re-orientations belong to the "
+            "recording; an operation that raises on the short records (band-pass padding on 33 samples) is skipped",
             "RotD0 == min and RotD100 == max over the azimuths (rtol 1e-9) is required in addition to the bounds: "
             "a percentile definition with another value at 0/100 is not accepted",
             "preprocess(orient=t) is compared with orient-then-preprocess at rtol 1e-9 / atol 1e-11*scale for the "
@@ -1160,5 +1196,6 @@ def describe(tier):
             "the vertical",
             "only smoothing configurations whose windows are non-empty on the unpadded grid are enumerated "
             "(Konno-Ohmachi b=10, rectangular +-3 bins, Parzen +-3 bins); empty windows belong to C02",
-            "sample comparisons use atol 1e-12 * largest horizontal sample, curve comparisons rtol 1e-9",
+            "sample comparisons use atol 1e-12 * largest horizontal sample, curve comparisons rtol 1e-9 (200 "
+            "consecutive re-orientations accumulate well below that)",
         ])
